@@ -589,11 +589,24 @@ impl Statement {
 
     fn r#clear(parse: &mut BasicParser) -> Result<Statement> {
         let result = Ok(Statement::Clear(parse.col.clone()));
-        while !matches!(
-            parse.peek(),
-            None | Some(Token::Colon) | Some(Token::Word(Word::Else))
-        ) {
-            parse.next();
+        // The options other versions of BASIC take here, `[x][,[y][,z]]`,
+        // are checked to be expressions and then ignored.
+        let mut expect_comma = false;
+        loop {
+            match parse.peek() {
+                None | Some(Token::Colon) | Some(Token::Word(Word::Else)) => break,
+                Some(Token::Comma) => {
+                    parse.next();
+                    expect_comma = false;
+                }
+                Some(_) if expect_comma => {
+                    return Err(error!(SyntaxError, ..&parse.col; "UNEXPECTED TOKEN"));
+                }
+                Some(_) => {
+                    parse.expect_expression()?;
+                    expect_comma = true;
+                }
+            }
         }
         result
     }
